@@ -6,7 +6,7 @@
 From PV Require Import Engine EngineProofs.
 Open Scope string_scope.
 Notation RG := (list val -> option string -> option string -> st -> R).
-Notation RP := (string -> option (list val) -> option string -> option string -> st -> R).
+Notation RP := (string -> option (list string) -> option (list val) -> option string -> option string -> st -> R).
 
 (** step decorators: an instruction passes untouched whatever [swallow] says, and nothing is
     added to runErrors (the state is exactly the one the instruction left) *)
@@ -73,24 +73,24 @@ Print Assumptions C02_stop_leaves_group.
 
 (** stoppipeline ends only the current pipeline, which reports success to whoever ran it
     (the parent's pype step then carries on) ... *)
-Theorem C02_stoppipeline_scope : forall lib (rg : RG) name pl groups su fa s s1,
+Theorem C02_stoppipeline_scope : forall lib (rg : RG) (rfail : string -> st -> R) name pl groups su fa s s1,
   find (fun p => String.eqb (fst p) name) lib = Some pl ->
   rg (effective_groups groups)
      (if defaulted groups su fa then Some "on_success" else su)
      (if defaulted groups su fa then Some "on_failure" else fa)
      (set_stack s (name :: stack s)) = (ORaise (RSig SStopPipeline), s1) ->
-  load_and_run lib rg name groups su fa s = (OOk, set_stack s1 (tl (stack s1))).
+  load_and_run lib rg rfail name None groups su fa s = (OOk, set_stack s1 (tl (stack s1))).
 Proof. exact load_and_run_stoppipeline. Qed.
 Print Assumptions C02_stoppipeline_scope.
 
 (** ... stop leaves every pipeline: through load_and_run, through the parent's pype step *)
-Theorem C02_stop_leaves_pipeline : forall lib (rg : RG) name pl groups su fa s s1,
+Theorem C02_stop_leaves_pipeline : forall lib (rg : RG) (rfail : string -> st -> R) name pl groups su fa s s1,
   find (fun p => String.eqb (fst p) name) lib = Some pl ->
   rg (effective_groups groups)
      (if defaulted groups su fa then Some "on_success" else su)
      (if defaulted groups su fa then Some "on_failure" else fa)
      (set_stack s (name :: stack s)) = (ORaise (RSig SStop), s1) ->
-  load_and_run lib rg name groups su fa s = (ORaise (RSig SStop), set_stack s1 (tl (stack s1))).
+  load_and_run lib rg rfail name None groups su fa s = (ORaise (RSig SStop), set_stack s1 (tl (stack s1))).
 Proof. exact load_and_run_stop. Qed.
 Print Assumptions C02_stop_leaves_pipeline.
 
@@ -101,7 +101,7 @@ Print Assumptions C02_pype_passes_instructions.
 
 (** and in each case the run reports success to its caller *)
 Theorem C02_reports_success : forall fuel lib name d gs su fa j s1 sg,
-  run_pipeline fuel lib name gs su fa (mkst d [] [] [] 0 j) = (ORaise (RSig sg), s1) ->
+  run_pipeline fuel lib name None gs su fa (mkst d [] [] [] 0 j) = (ORaise (RSig sg), s1) ->
   (sg = SStop \/ sg = SStopPipeline \/ sg = SStopStepGroup) ->
   api_run fuel lib name d gs su fa j = (OOk, s1).
 Proof. exact api_run_stop. Qed.
